@@ -144,6 +144,10 @@ void ReadRecordHeader(
 
     if (fread(Header, 1, 1, f) != 1) {
         ChkIO(Name);
+
+        /* no I/O error: the file ends where a record header has to stand */
+
+        FormatError(Name, catgetmessage(&MsgCat, Num_FormatInvRecordHeaderMsg));
     }
     if ((*Header != FileHeaderEnd) && (*Header != FileHeaderStartAdr)) {
         if ((*Header == FileHeaderDataRec) || (*Header == FileHeaderRDataRec)
